@@ -7,11 +7,28 @@ package internal
 
 // processInner renders one snapshot. Not yet under contract: assumed to write
 // only to out (and freshly allocated memory) and never to touch the input.
-//@ func processInner
+//@ func showBanner
 //@   option assumed
-//@   requires c != nil && len(c.Goroutines) >= 1 && out != nil
-//@   modifies ghost:wlen, ghost:wdata, ghost:werrs at out
-//@   ensures wlen(out) >= old(wlen(out)) && (forall k :: 0 <= k && k < old(wlen(out)) ==> wdata(out)[k] == old(wdata(out))[k])
+//@   modifies nothing
+//@ func toHTML
+//@   option assumed
+//@   modifies nothing
+//@   ensures result != io.EOF
+// processInner: the wiring. A race report is rendered goroutine by goroutine,
+// everything else is aggregated at the requested similarity and rendered bucket
+// by bucket; the writer, palette, path format and filter/match expressions are
+// passed through unchanged.
+//@ func processInner
+//@   requires c != nil && len(c.Goroutines) >= 1 && c.Goroutines[0] != nil && out != nil && p != nil && 0 <= wsn(out)
+//@   requires forall i :: 0 <= i && i < len(c.Goroutines) ==> c.Goroutines[i] != nil
+//@   modifies ghost:wsn at out; ghost:wss at out
+//@   gvar race bool
+//@   update after-call IsRace#1: race := ret0
+//@   assert after-call IsRace#1: [raceTestOnTheScannedSnapshot C08 C16] arg0 == c
+//@   assert after-call Aggregate#1: [aggregatesTheScannedSnapshotAtTheRequestedLevel C05 C16] !race && arg0 == c && arg1 == s
+//@   assert after-call writeBucketsToConsole#1: [bucketsRenderedWithTheGivenSettings C16] !race && html == "" && arg0 == out && arg1 == p && arg3 == pf && arg5 == filter && arg6 == match
+//@   assert after-call writeGoroutinesToConsole#1: [raceRenderedGoroutineByGoroutine C08 C16] race && html == "" && arg0 == out && arg1 == p && arg2 == c && arg3 == pf && arg5 == filter && arg6 == match
+//@   ensures wsn(out) >= old(wsn(out))
 //@   ensures result != io.EOF
 
 // process: the reader handed to the next ScanSnapshot call always continues
@@ -20,7 +37,7 @@ package internal
 // "orig" is the position of in's next byte in the stream of the reader that
 // process was given: orig = N(old(in)) - (N(in) - fetched(in)).
 //@ func process
-//@   requires in != nil && out != nil && 0 <= fetched(in) && fetched(in) <= N(in) && 0 <= wlen(out)
+//@   requires in != nil && out != nil && p != nil && 0 <= fetched(in) && fetched(in) <= N(in) && 0 <= wlen(out) && 0 <= wsn(out)
 //@   gvar flushed int = zero
 //@   gvar flushErr error = zero
 //@   gvar unconsumed int = zero
@@ -32,6 +49,7 @@ package internal
 //@   assert after-call MultiReader#1: [scanningResumesAtFirstUnconsumedByte C07] N(ret0) - fetched(ret0) == unconsumed + (N(in) - fetched(in))
 //@   assert after-call ScanSnapshot#1: [forwardedBytesAreOriginalBytesInOrder C02 C07 needs=streamResumesExactly+forwardedIsStreamPrefix+fetchedGrows+nothingBeforeForwardedIsHeld] forall j :: pre(wlen(out)) <= j && j < wlen(out) ==> wdata(out)[j] == S(old(in), N(old(in)) - (N(in) - pre(fetched(in))) + (j - pre(wlen(out))))
 //@   at-return [remainderFlushedAtEndOfInput C02] result == nil && len(suffix) != 0 ==> flushed == len(suffix) && flushErr == nil
+//@   loop 0: invariant 0 <= wsn(out)
 //@   loop 0: invariant [streamResumesExactly C02 C07] in != nil && out == old(out) && 0 <= fetched(in) && fetched(in) <= N(in) && 0 <= wlen(out) && N(in) - fetched(in) <= N(old(in)) - old(fetched(old(in))) && (forall k :: 0 <= k && k < N(in) - fetched(in) ==> S(in, fetched(in) + k) == S(old(in), N(old(in)) - (N(in) - fetched(in)) + k))
 //@   loop 0: decreases N(in) - fetched(in)
 
@@ -59,6 +77,7 @@ package internal
 //@   at-return [everyAdmittedBlockWritten C16] forall i :: 0 <= i && i < len(a.Buckets) && (filter == nil || !reMatch(filter, hdr[i])) && (match == nil || reMatch(match, hdr[i])) ==> base <= pos[i] && pos[i] + 1 < wsn(out) && wss(out)[pos[i]] == hdr[i] && wss(out)[pos[i] + 1] == lines[i]
 //@   at-return [onlyAdmittedBlocksWritten C16] forall k :: base <= k && k < wsn(out) ==> 0 <= src[k] && src[k] < len(a.Buckets) && (filter == nil || !reMatch(filter, hdr[src[k]])) && (match == nil || reMatch(match, hdr[src[k]])) && (k == pos[src[k]] || k == pos[src[k]] + 1)
 //@   at-return [blocksInInputOrder C16] forall i, j :: 0 <= i && i < j && j < len(a.Buckets) && (filter == nil || !reMatch(filter, hdr[i])) && (match == nil || reMatch(match, hdr[i])) && (filter == nil || !reMatch(filter, hdr[j])) && (match == nil || reMatch(match, hdr[j])) ==> pos[i] + 1 < pos[j]
+//@   ensures [writersReportNoError C16] result == nil
 //@   ensures [earlierOutputKept C16] wsn(out) >= old(wsn(out)) && forall k :: 0 <= k && k < old(wsn(out)) ==> wss(out)[k] == old(wss(out))[k]
 //@   loop 0: invariant -1 <= rangeindex && rangeindex < len(a.Buckets) && base <= wsn(out) && old(wsn(out)) <= base
 //@   loop 0: invariant forall k :: 0 <= k && k < old(wsn(out)) ==> wss(out)[k] == old(wss(out))[k]
@@ -84,6 +103,7 @@ package internal
 //@   at-return [everyAdmittedBlockWritten C16] forall i :: 0 <= i && i < len(s.Goroutines) && (filter == nil || !reMatch(filter, hdr[i])) && (match == nil || reMatch(match, hdr[i])) ==> base <= pos[i] && pos[i] + 1 < wsn(out) && wss(out)[pos[i]] == hdr[i] && wss(out)[pos[i] + 1] == lines[i]
 //@   at-return [onlyAdmittedBlocksWritten C16] forall k :: base <= k && k < wsn(out) ==> 0 <= src[k] && src[k] < len(s.Goroutines) && (filter == nil || !reMatch(filter, hdr[src[k]])) && (match == nil || reMatch(match, hdr[src[k]])) && (k == pos[src[k]] || k == pos[src[k]] + 1)
 //@   at-return [blocksInInputOrder C16] forall i, j :: 0 <= i && i < j && j < len(s.Goroutines) && (filter == nil || !reMatch(filter, hdr[i])) && (match == nil || reMatch(match, hdr[i])) && (filter == nil || !reMatch(filter, hdr[j])) && (match == nil || reMatch(match, hdr[j])) ==> pos[i] + 1 < pos[j]
+//@   ensures [writersReportNoError C16] result == nil
 //@   ensures [earlierOutputKept C16] wsn(out) >= old(wsn(out)) && forall k :: 0 <= k && k < old(wsn(out)) ==> wss(out)[k] == old(wss(out))[k]
 //@   loop 0: invariant -1 <= rangeindex && rangeindex < len(s.Goroutines) && base <= wsn(out) && old(wsn(out)) <= base
 //@   loop 0: invariant forall k :: 0 <= k && k < old(wsn(out)) ==> wss(out)[k] == old(wss(out))[k]
